@@ -259,6 +259,51 @@ def fault_runs(h, tier, rng, ncalls):
     return runs
 
 
+CT_RE = re.compile(r'^CREATE TABLE "([^"]+)" \(')
+CI_RE = re.compile(r'^CREATE (?:UNIQUE )?INDEX "([^"]+)" ON "([^"]+)"')
+AC_RE = re.compile(r'^ALTER TABLE "([^"]+)" ADD COLUMN "([^"]+)"')
+
+
+def obstacle_for(stmt):
+    """an object created by hand that makes `stmt` fail on the engine with a duplicate-object error:
+    -> (kind, obstacle sql, undo sql, names that must not be touched by earlier pending statements)"""
+    m = CT_RE.match(stmt)
+    if m:
+        return ("table", 'CREATE TABLE "%s" ("obstacle" integer)' % m.group(1), 'DROP TABLE "%s"' % m.group(1), [m.group(1)])
+    m = CI_RE.match(stmt)
+    if m:
+        return ("index", stmt, 'DROP INDEX "%s"' % m.group(1), [m.group(1), m.group(2)])
+    m = AC_RE.match(stmt)
+    if m:
+        return ("column", stmt, 'ALTER TABLE "%s" DROP COLUMN "%s"' % (m.group(1), m.group(2)), [m.group(1)])
+    return None
+
+
+def obstacle_runs(h, tier, out1):
+    """natural engine failures: before the run somebody created, by hand, an object that a pending statement
+    creates (table / index / column), at every position of the pending list where that is the first thing
+    touching the object; fresh and partially migrated databases; both code shapes"""
+    migs, n = out1["migs"], len(out1["migs"])
+    runs = []
+    for v in (0, 1):
+        for k in range(n):
+            call, earlier = 5, []
+            for m in migs[k:]:
+                for st in [x for a in m["actions"] for x in a["sqlite"] if x]:
+                    ob = obstacle_for(st)
+                    if ob and not any(('"%s"' % nm) in e or (" %s" % nm) in e for nm in ob[3] for e in earlier):
+                        kind, osql, undo, _ = ob
+                        runs.append({"name": "ob_v%d_k%d_c%d" % (v, k, call), "variant": v, "backend": "sqlite", "mode": "sequential",
+                                     "init": {"k": k, "vt": "absent" if k == 0 else "current", "obstacles": [osql]},
+                                     "instances": [{"faults": []}, {"faults": []}], "between": [[undo]], "schedule": [],
+                                     "tags": {"family": "c10", "kind": "obstacle", "k": k, "j": call, "object": kind, "statement": st[:120],
+                                              "obstacle": osql[:120]}})
+                    earlier.append(st)
+                    call += 1
+                call += 1          # the version INSERT of this migration
+    return runs
+
+
 def interleavings(a, b):
     """all merges of a zeros and b ones"""
     if a == 0:
@@ -397,18 +442,23 @@ def g_result(r):
     return "None"
 
 
-def g_case(out, run, applied, crash=None):
+def g_case(out, run, applied, crash=None, model_faults=None):
     insts = glist("(%s, %s)" % (g_result(i["result"]), glist(map(g_ev, i["log"]))) for i in run["instances"])
-    faults = glist(glist("%d%%nat" % j for j in (i.get("faults") or [])) for i in run["instances"])
+    fl = model_faults if model_faults is not None else [(i.get("faults") or []) for i in run["instances"]]
+    faults = glist(glist("%d%%nat" % j for j in f) for f in fl)
     return ("mkCase %s ms %s\n   %s %s %s %s %s refc\n   %s\n   %s\n   %s" % (
         g_opts(out, run), g_db(run["before"], applied), faults, glist("%d%%nat" % p for p in run["schedule"]),
         "true" if run.get("sequential") else "false", "true" if run.get("dry") else "false",
         "None" if crash is None else "(Some %d%%nat)" % crash, insts, glist(map(g_obs, run.get("mids", []))), g_obs(run["after"])))
 
 
-def write_shard(path, out, cases):
+def write_shard(path, out, cases, extra_refcats=()):
     """cases: list of Gallina mkCase terms sharing `ms` and `refc`"""
-    refc = glist("(%s, %s)" % (glist(map(gs, r["stmts"])), gs(r["catalog"] if isinstance(r["catalog"], str) else "ERROR")) for r in out["refcats"] if "stmts" in r)
+    refs = [(r["stmts"], r["catalog"] if isinstance(r["catalog"], str) else "ERROR") for r in out["refcats"] if "stmts" in r]
+    for st, cat in extra_refcats:
+        if (st, cat) not in refs:
+            refs.append((st, cat))
+    refc = glist("(%s, %s)" % (glist(map(gs, st)), gs(cat)) for st, cat in refs)
     body = ["From VV.MIG Require Import Corr.", "Definition ms : list mig := %s." % g_migs(out),
             "Definition refc : list (list string * string) := %s." % refc,
             "Definition cases : list mig_case := [", ";\n".join(cases), "].",
@@ -471,16 +521,20 @@ def run_history(hdir, tier, seed, work, built):
         key_nc = (r.get("tags") or {}).get("ncalls_key")
         if key_nc:
             ncalls[key_nc] = len(r["instances"][0]["log"])
-    runs2 = fault_runs(h, tier, rng, ncalls) + conc_runs(h, tier, rng, ncalls)
+    runs2 = fault_runs(h, tier, rng, ncalls) + obstacle_runs(h, tier, out1) + conc_runs(h, tier, rng, ncalls)
     out2, rc, err = run_bin(binp, {"work": wd, "project": hdir, "no_refcats": True, "runs": runs2}, h["name"] + ".2")
     if out2 is None:
         res["error"] = {"stage": "run-faults", "rc": rc, "log": err}
         return res
+    skipped = []
     for r in out2["runs"]:
         if "harness_error" in r:
             res["error"] = {"stage": "harness", "log": r["harness_error"], "run": r.get("name")}
             return res
-    runs = out1["runs"] + out2["runs"]
+        if (r.get("init") or {}).get("obstacle_error"):
+            skipped.append({"run": r["name"], "why": r["init"]["obstacle_error"][:200]})
+    res["obstacles_not_applicable"] = skipped
+    runs = out1["runs"] + [r for r in out2["runs"] if not (r.get("init") or {}).get("obstacle_error")]
     # process kills: prepare / run-and-die / look / re-run, each in its own process
     crashes = []
     for (k, j) in crash_points(h, tier, rng, ncalls):
@@ -500,7 +554,16 @@ def history_cases(hres):
     out = hres["out"]
     cases = []
     for r in hres["runs"]:
-        cases.append((g_case(out, r, r["init"]["applied"]), {"history": hres["name"], "run": r["name"], "tags": r.get("tags") or {}}))
+        tags = r.get("tags") or {}
+        if tags.get("kind") == "obstacle":
+            # the model is told WHERE the engine refuses (the call of the statement whose object exists already),
+            # not what the implementation did; compared: the failed run only (log, Err, database = before)
+            first = dict(r, instances=r["instances"][:1], schedule=[p for p in r["schedule"] if p == 0], mids=r["mids"][:1], after=r["mids"][0])
+            cases.append((g_case(out, first, r["init"]["applied"], model_faults=[[tags["j"]]]),
+                          {"history": hres["name"], "run": r["name"], "tags": tags,
+                           "refcat": [r["init"]["applied"], r["before"]["catalog"]]}))
+            continue
+        cases.append((g_case(out, r, r["init"]["applied"]), {"history": hres["name"], "run": r["name"], "tags": tags}))
     for c in hres["crashes"]:
         look = c["look"]
         fake = {"variant": 0, "backend": "sqlite", "before": c["prep"]["before"], "instances": [], "schedule": [], "after": look["after"], "mids": []}
@@ -559,7 +622,8 @@ def run_mig_locked(tier, seed, key, d, done, t0):
         cs = history_cases(hr)
         for a in range(0, len(cs), per_shard):
             part = cs[a:a + per_shard]
-            write_shard(os.path.join(d, "cases_mig_%03d.v" % si), hr["out"], [c for c, _ in part])
+            write_shard(os.path.join(d, "cases_mig_%03d.v" % si), hr["out"], [c for c, _ in part],
+                        [tuple(ds["refcat"]) for _, ds in part if ds.get("refcat")])
             for li, (_, ds) in enumerate(part):
                 ds.update({"shard": si, "local": li, "gidx": len(descr)})
                 descr.append(ds)
@@ -697,6 +761,27 @@ def oracle_c10(h, run):
     return {"ok": not fails, "fails": fails}
 
 
+def oracle_obstacle(h, run):
+    """an object a pending statement creates exists already: the run must fail, change nothing, and complete after
+    the obstacle is removed"""
+    fails = []
+    insts = run["instances"]
+    r0, mid = insts[0]["result"], run["mids"][0]
+    if not r0 or r0["kind"] != "database_error":
+        fails.append({"clause": "engine-refusal-returns-err", "got": r0, "obstacle": run["tags"].get("obstacle"),
+                      "executed_after_refusal": [e["sql"][:80] for e in insts[0]["log"] if e["k"] in ("txn_exec", "commit")][-4:]})
+    if not same_but_bookkeeping(run["before"], mid):
+        fails.append({"clause": "failed-run-changes-nothing", "rows_before": run["before"]["rows"], "rows_after": mid["rows"],
+                      "catalog_equal": run["before"]["catalog"] == mid["catalog"]})
+    base = dict(run, before=dict(run["before"]))
+    pend, rows, cat = full_state(h, base, legacy_rows(run["before"]))
+    r1 = insts[1]["result"]
+    if not r1 or r1["kind"] != "ok" or run["after"]["rows"] != rows or (cat is not None and run["after"]["catalog"] != cat):
+        fails.append({"clause": "rerun-after-removing-the-obstacle-completes", "result": r1, "expected_rows": rows, "got_rows": run["after"]["rows"],
+                      "catalog_equal": run["after"]["catalog"] == cat, "got_catalog": run["after"]["catalog"][:600], "expected_catalog": (cat or "")[:600]})
+    return {"ok": not fails, "fails": fails}
+
+
 def oracle_crash(h, c):
     fails = []
     before, look, rerun = c["prep"]["before"], c["look"]["after"], c["rerun"]
@@ -759,7 +844,7 @@ CLASSIFIERS = {"id_conflict": lambda hyp: bool(hyp and hyp.get("id_conflict")),
 FAMILY = {"C09": ("c09",), "C10": ("c10",), "C11": ("c11",)}
 RULES = {
     "C09": "every history (corpus/mig + generated in thorough) x every start version k in 0..n x 4 option sets (plain / verbose / version_table / both), 2 consecutive starts each; legacy bookkeeping layout; fake PostgreSQL/MySQL backends; pre-seeded foreign ids and out-of-range versions. non-trivial = distinct (history, options, prepared database) with >= 1 pending migration",
-    "C10": "fault injected at connection call j (quick: every j for the fresh database of each history + 2 random j per (k, options); thorough: every j everywhere), each followed by a clean re-run; process killed (abort) before call j and database re-opened by a new process. non-trivial = distinct (history, options, k, j) where the fault/kill hits inside the transaction (j >= 3)",
+    "C10": "fault injected at connection call j (quick: every j for the fresh database of each history + 2 random j per (k, options); thorough: every j everywhere), each followed by a clean re-run; process killed (abort) before call j and database re-opened by a new process; natural engine refusals: an object (table / index / column) that a pending statement creates is created by hand before the run, at every position of the pending list where it is the first statement touching that object, for every start version k and both code shapes, then the obstacle is removed and the run repeated. non-trivial = distinct (history, options, k, j) where the fault/kill hits inside the transaction (j >= 3)",
     "C11": "2 or 3 instances on one SQLite file (busy_timeout 0) stepped by the scheduler, then one late retry instance; systematic + seeded random schedules (thorough: every interleaving of the transaction parts for <= 7 calls, every interleaving of the parts outside the transaction). non-trivial = distinct (history, options, k, effective schedule) in which >= 2 instances issued a call while another was unfinished",
 }
 
@@ -877,7 +962,7 @@ def mig_check(prop, tier, seed, assumptions):
             if ds["tags"].get("j", 0) >= 3:
                 nontriv.add(fp)
         else:
-            o = {"C09": oracle_c09, "C10": oracle_c10, "C11": oracle_c11}[prop](h, run)
+            o = oracle_obstacle(h, run) if kind == "obstacle" else {"C09": oracle_c09, "C10": oracle_c10, "C11": oracle_c11}[prop](h, run)
             fp = case_fingerprint(ds, run)
             if nontrivial(prop, ds, run, h):
                 nontriv.add(fp)
@@ -917,7 +1002,7 @@ def mig_check(prop, tier, seed, assumptions):
     for (ds, run, o) in unexplained[:5]:
         hd = history_dir_of(ds["history"], tier, seed)
         rp = vflib.write_replay(prop, "oracle", {"tier": tier, "seed": seed, "history": ds["history"], "history_files": history_files(hd) if hd else None,
-                                                 "run": {k: v for k, v in run.items() if k in ("name", "variant", "backend", "init", "schedule", "tags", "k", "j")},
+                                                 "run": {k: v for k, v in run.items() if k in ("name", "variant", "backend", "init", "schedule", "tags", "k", "j", "between")},
                                                  "faults": [i.get("faults") for i in run.get("instances", [])] if isinstance(run.get("instances"), list) else None,
                                                  "oracle": o, "hypotheses": ds.get("hyp"), "replay_cmd": "./vf replay %s <this file>" % prop})
         chk.violation(rp)
@@ -977,8 +1062,10 @@ def mig_replay(prop, path):
         print("replay: the oracle holds on this input now")
         return 0
     faults = rp.get("faults") or [i.get("faults") for i in (rp.get("implementation") or {}).get("instances", [])] or [[]]
-    spec = {"name": "replay", "variant": src.get("variant", 0), "backend": src.get("backend", "sqlite"), "init": {k: v for k, v in (src.get("init") or {}).items() if k in ("k", "vt", "rows")},
+    spec = {"name": "replay", "variant": src.get("variant", 0), "backend": src.get("backend", "sqlite"), "init": {k: v for k, v in (src.get("init") or {}).items() if k in ("k", "vt", "rows", "obstacles")},
             "instances": [{"faults": f or []} for f in faults], "schedule": src.get("schedule") or [], "tags": tags}
+    if src.get("between"):
+        spec["between"] = src["between"]
     if tags.get("family") == "c11":
         spec["late"] = [tags.get("ninst", 2)]
     else:
@@ -989,7 +1076,7 @@ def mig_replay(prop, path):
         return 1
     hh = {"out": {"migs": out["migs"], "refcats": out["refcats"]}, "versions": h["versions"]}
     run = out["runs"][0]
-    o = {"C09": oracle_c09, "C10": oracle_c10, "C11": oracle_c11}[prop](hh, run)
+    o = oracle_obstacle(hh, run) if tags.get("kind") == "obstacle" else {"C09": oracle_c09, "C10": oracle_c10, "C11": oracle_c11}[prop](hh, run)
     print(json.dumps({"results": [i["result"] for i in run["instances"]], "oracle": o}, indent=1)[:4000])
     if o is not None and not o["ok"]:
         print("VIOLATION property=%s replay=%s" % (prop, path))
